@@ -282,6 +282,7 @@ func initStubs() {
 	stubTable[zzp+"Assume"] = func(e *Exec, st *State, fn *Func, args []Value, site string) []Outcome {
 		c := args[0].(*Term)
 		if c.IsFalse() {
+			debugf("path ends: Assume(false) at %s", site)
 			return nil
 		}
 		st.Assume(c)
@@ -346,6 +347,7 @@ func initStubs() {
 			outs = append(outs, Outcome{st: s, kind: oReturn, vals: []Value{BVConst(uint64(i), 64)}})
 		}
 		e.forks += len(outs) - 1
+		debugf("Choice %s n=%d -> %d feasible", name, n, len(outs))
 		return outs
 	}
 	stubTable[zzp+"Concretize"] = func(e *Exec, st *State, fn *Func, args []Value, site string) []Outcome {
@@ -376,6 +378,29 @@ func initStubs() {
 	}
 	stubTable[zzp+"Thorough"] = func(e *Exec, st *State, fn *Func, args []Value, site string) []Outcome {
 		return ret(st, BoolConst(e.cfg["tier"] == "thorough"))
+	}
+	rbin := func(op string) StubFn {
+		return func(e *Exec, st *State, fn *Func, args []Value, site string) []Outcome {
+			a, b := args[0].(*Term), args[1].(*Term)
+			if a.Sort.K != SReal {
+				fail("exact-real intrinsic outside relaxed-real mode")
+			}
+			return ret(st, App(op, RealSort, a, b))
+		}
+	}
+	stubTable[zzp+"RAdd"] = rbin("+")
+	stubTable[zzp+"RSub"] = rbin("-")
+	stubTable[zzp+"RMul"] = rbin("*")
+	stubTable[zzp+"RDiv"] = rbin("/")
+	stubTable[zzp+"RAbs"] = func(e *Exec, st *State, fn *Func, args []Value, site string) []Outcome {
+		a := args[0].(*Term)
+		return ret(st, Ite(App("<", BoolSort, a, RealConst("0.0")), App("-", RealSort, a), a))
+	}
+	stubTable[zzp+"RLess"] = func(e *Exec, st *State, fn *Func, args []Value, site string) []Outcome {
+		return ret(st, App("<", BoolSort, args[0].(*Term), args[1].(*Term)))
+	}
+	stubTable[zzp+"RLeq"] = func(e *Exec, st *State, fn *Func, args []Value, site string) []Outcome {
+		return ret(st, App("<=", BoolSort, args[0].(*Term), args[1].(*Term)))
 	}
 	stubTable[zzp+"Symbolic"] = func(e *Exec, st *State, fn *Func, args []Value, site string) []Outcome {
 		return ret(st, True)
